@@ -885,6 +885,13 @@ ws_read_finish_str(nni_ws *ws)
 		while ((frame != NULL) && (niov != 0)) {
 			size_t n;
 
+			if (iov->iov_len == 0) {
+				// An empty iov can hold nothing: skip it (do not
+				// spin on it with the lock held).
+				iov++;
+				niov--;
+				continue;
+			}
 			if ((n = frame->len) > iov->iov_len) {
 				// This eats the entire iov.
 				n = iov->iov_len;
